@@ -44,7 +44,18 @@ extern "C" fn cleanup_root() {
 }
 
 fn init_root() {
-    let base = std::env::var_os("TMPDIR").map(PathBuf::from).unwrap_or_else(|| PathBuf::from("/tmp"));
+    // $TMPDIR if set; otherwise a tmpfs if there is one (10^5..10^6 file creations: rmdir/unlink on
+    // the sandbox's ext4 with online discard take 5-20 ms each), otherwise /tmp
+    let base = std::env::var_os("TMPDIR").map(PathBuf::from).unwrap_or_else(|| {
+        let shm = PathBuf::from("/dev/shm");
+        let probe = shm.join(format!(".e_c08-probe-{}", std::process::id()));
+        if std::fs::create_dir(&probe).is_ok() {
+            let _ = std::fs::remove_dir(&probe);
+            shm
+        } else {
+            PathBuf::from("/tmp")
+        }
+    });
     let root = base.join(format!("e_c08-{}", std::process::id()));
     let _ = std::fs::remove_dir_all(&root);
     if let Err(e) = std::fs::create_dir_all(&root) {
@@ -60,6 +71,8 @@ struct Ctx {
     poll: CompioWorld,
     counters: HashMap<&'static str, u64>,
     confirmed: HashSet<String>,
+    seen_sigs: HashSet<u64>,
+    new_sigs: Vec<String>,
 }
 
 impl Ctx {
@@ -72,6 +85,8 @@ impl Ctx {
             poll: CompioWorld::new(DriverType::Poll, base.join("poll")),
             counters: HashMap::new(),
             confirmed: HashSet::new(),
+            seen_sigs: HashSet::new(),
+            new_sigs: Vec::new(),
         }
     }
 
@@ -184,11 +199,35 @@ struct Found {
     hist_len: usize,
 }
 
+enum LogItem {
+    Setup(String, [Obs; 3]),
+    Step(usize, Op, [Obs; 3]),
+    StateAfter([State; 3]),
+    Drain([Vec<u8>; 3]),
+}
+
 struct SeqResult {
     steps: usize,
     found: Vec<Found>,
-    log: Vec<String>,
-    sigs: Vec<String>,
+    /// raw material of the human-readable history; rendered only when somebody reads it
+    items: Vec<LogItem>,
+}
+
+impl SeqResult {
+    fn log(&self) -> Vec<String> {
+        self.items
+            .iter()
+            .map(|it| match it {
+                LogItem::Setup(what, o) => format!("setup {what} -> os: {} | iour: {} | poll: {}", fmt_obs(&o[0]), fmt_obs(&o[1]), fmt_obs(&o[2])),
+                LogItem::Step(k, op, o) => format!("#{k} {op:?} -> os: {} | iour: {} | poll: {}", fmt_obs(&o[0]), fmt_obs(&o[1]), fmt_obs(&o[2])),
+                LogItem::StateAfter(s) => format!(
+                    "   state after: os {:?} pipe {:?} | iour {:?} pipe {:?} | poll {:?} pipe {:?}",
+                    fmt_tree(&s[0].tree), s[0].pipe_buffered, fmt_tree(&s[1].tree), s[1].pipe_buffered, fmt_tree(&s[2].tree), s[2].pipe_buffered
+                ),
+                LogItem::Drain(p) => format!("drain -> os: {:02x?} | iour: {:02x?} | poll: {:02x?}", p[0], p[1], p[2]),
+            })
+            .collect()
+    }
 }
 
 fn off_class(op: &Op, len: Option<u64>) -> &'static str {
@@ -233,11 +272,12 @@ fn reach(ctx: &mut Ctx, scen: &Scenario, op: &Op, o: &Obs, before: &State) {
         ("pipe", Op::PRead { .. }, Res::Ok(n)) if *n > 0 => ctx.hit("pipe:data-read"),
         ("pipe", Op::PWrite { .. } | Op::PWriteV { .. }, Res::Err { .. }) => ctx.hit("pipe:write-after-reader-closed"),
         ("open", Op::Open(_), Res::Ok(_)) => ctx.hit("open:ok"),
-        ("open", Op::Open(_), Res::Err { errno: Some(e), .. }) => match *e {
-            libc::EINVAL => ctx.hit("open:EINVAL"),
-            libc::EEXIST => ctx.hit("open:EEXIST"),
-            libc::ENOENT => ctx.hit("open:ENOENT"),
-            libc::EISDIR => ctx.hit("open:EISDIR"),
+        // std rejects contradictory option sets with a synthetic InvalidInput (no errno)
+        ("open", Op::Open(_), Res::Err { kind, .. }) => match kind.as_str() {
+            "InvalidInput" => ctx.hit("open:EINVAL"),
+            "AlreadyExists" => ctx.hit("open:EEXIST"),
+            "NotFound" => ctx.hit("open:ENOENT"),
+            "IsADirectory" => ctx.hit("open:EISDIR"),
             _ => {}
         },
         ("dir", _, Res::Ok(_)) => ctx.hit("dir:ok-result"),
@@ -253,10 +293,11 @@ fn reach(ctx: &mut Ctx, scen: &Scenario, op: &Op, o: &Obs, before: &State) {
 
 /// Execute one sequence (choices from `ch`) in the three worlds in lock-step.
 fn run_sequence(ctx: &mut Ctx, scen: &Scenario, depth: usize, ch: &mut Chooser) -> SeqResult {
-    let mut res = SeqResult { steps: 0, found: vec![], log: vec![], sigs: vec![] };
-    ctx.os.reset();
-    ctx.iour.reset();
-    ctx.poll.reset();
+    let mut res = SeqResult { steps: 0, found: vec![], items: vec![] };
+    let mode = scen.snap_mode();
+    ctx.os.reset(mode);
+    ctx.iour.reset(mode);
+    ctx.poll.reset(mode);
     let wd = if *scen == Scenario::PipeZero { Duration::from_millis(1000) } else { Duration::from_secs(20) };
     ctx.iour.watchdog = wd;
     ctx.poll.watchdog = wd;
@@ -266,9 +307,9 @@ fn run_sequence(ctx: &mut Ctx, scen: &Scenario, depth: usize, ch: &mut Chooser) 
     let s_io = scen.setup(&mut ctx.iour);
     let s_po = scen.setup(&mut ctx.poll);
     for i in 0..s_os.len() {
-        res.log.push(format!("setup {} -> os: {} | iour: {} | poll: {}", s_os[i].0, fmt_obs(&s_os[i].1), fmt_obs(&s_io[i].1), fmt_obs(&s_po[i].1)));
         let d_io = cmp_obs(&s_os[i].1, &s_io[i].1);
         let d_po = cmp_obs(&s_os[i].1, &s_po[i].1);
+        res.items.push(LogItem::Setup(s_os[i].0.clone(), [s_os[i].1.clone(), s_io[i].1.clone(), s_po[i].1.clone()]));
         if d_io.is_some() || d_po.is_some() {
             push_found(&mut res, scen, &format!("setup:{}", s_os[i].0), d_io, d_po, 0);
             return res;
@@ -301,13 +342,19 @@ fn run_sequence(ctx: &mut Ctx, scen: &Scenario, depth: usize, ch: &mut Chooser) 
         res.steps += 1;
         let opclass = format!("{}{}", op.class(), off_class(&op, file_len(&st_os)));
         let opclass = if off_class(&op, file_len(&st_os)).is_empty() { opclass } else { opclass.replacen("]", "", 1) + "]" };
-        res.log.push(format!("#{step} {op:?} -> os: {} | iour: {} | poll: {}", fmt_obs(&o_os), fmt_obs(&o_io), fmt_obs(&o_po)));
-        res.sigs.push(format!("{}|{}|{}", scen.family(), opclass, o_os.res.class()));
+        {
+            let rc = o_os.res.class();
+            let h = vcore::fnv(opclass.as_bytes()) ^ vcore::fnv(rc.as_bytes()).rotate_left(17) ^ vcore::fnv(scen.family().as_bytes()).rotate_left(33);
+            if ctx.seen_sigs.insert(h) {
+                ctx.new_sigs.push(format!("{}|{}|{}", scen.family(), opclass, rc));
+            }
+        }
         reach(ctx, scen, &op, &o_os, &st_os);
         let d_io = cmp_obs(&o_os, &o_io).or_else(|| cmp_state(&n_os, &n_io));
         let d_po = cmp_obs(&o_os, &o_po).or_else(|| cmp_state(&n_os, &n_po));
+        res.items.push(LogItem::Step(step, op, [o_os, o_io, o_po]));
         if d_io.is_some() || d_po.is_some() {
-            res.log.push(format!("   state after: os {:?} pipe {:?} | iour {:?} pipe {:?} | poll {:?} pipe {:?}", fmt_tree(&n_os.tree), n_os.pipe_buffered, fmt_tree(&n_io.tree), n_io.pipe_buffered, fmt_tree(&n_po.tree), n_po.pipe_buffered));
+            res.items.push(LogItem::StateAfter([n_os, n_io, n_po]));
             push_found(&mut res, scen, &opclass, d_io, d_po, step + 1);
             return res;
         }
@@ -319,9 +366,9 @@ fn run_sequence(ctx: &mut Ctx, scen: &Scenario, depth: usize, ch: &mut Chooser) 
         let p_os = ctx.os.drain_pipe();
         let p_io = ctx.iour.drain_pipe();
         let p_po = ctx.poll.drain_pipe();
-        res.log.push(format!("drain -> os: {p_os:02x?} | iour: {p_io:02x?} | poll: {p_po:02x?}"));
         let d = |g: &Vec<u8>| (g != &p_os).then(|| ("pipe-content".to_string(), format!("bytes left in the pipe {g:02x?}, OS reference {p_os:02x?}")));
         let (d_io, d_po) = (d(&p_io), d(&p_po));
+        res.items.push(LogItem::Drain([p_os.clone(), p_io.clone(), p_po.clone()]));
         if d_io.is_some() || d_po.is_some() {
             let n = res.steps;
             push_found(&mut res, scen, "final-drain", d_io, d_po, n);
@@ -384,13 +431,10 @@ fn explore_prefix(sh: &Shared, scen: &Scenario, depth: usize, prefix0: &[u32]) -
         }
         n += 1;
         sh.rep.add_execution(r.steps as u64 * 3);
-        for s in &r.sigs {
-            sh.rep.outcome(s.clone());
-        }
         if !r.found.is_empty() {
             handle_found(sh, scen, depth, &ch, &r);
         } else {
-            sh.rep.sample(6, || json!({"scenario": scen.name(), "choices": ch.choices(), "log": r.log}));
+            sh.rep.sample(6, || json!({"scenario": scen.name(), "choices": ch.choices(), "log": r.log()}));
         }
         match next_prefix(&ch.trace) {
             Some(p) if p.len() >= prefix0.len() && p[..prefix0.len()] == *prefix0 => prefix = p,
@@ -411,12 +455,13 @@ fn handle_found(sh: &Shared, scen: &Scenario, depth: usize, ch: &Chooser, r: &Se
         let r2 = with_ctx(|ctx| run_sequence(ctx, scen, depth, &mut ch2));
         let k1: Vec<&String> = r.found.iter().map(|f| &f.key).collect();
         let k2: Vec<&String> = r2.found.iter().map(|f| &f.key).collect();
-        if k1 != k2 || r.log != r2.log {
-            eprintln!("first run:\n  {}\nsecond run:\n  {}", r.log.join("\n  "), r2.log.join("\n  "));
+        if k1 != k2 || r.log() != r2.log() {
+            eprintln!("first run:\n  {}\nsecond run:\n  {}", r.log().join("\n  "), r2.log().join("\n  "));
             vcore::machinery_error(&format!("NONDETERMINISM: scenario {} choices {:?} gave different observations when re-executed", scen.name(), ch.choices()));
         }
         sh.rep.count("violations_confirmed_by_reexecution", 1);
     }
+    let log = r.log();
     let mut g = sh.found.lock().unwrap();
     for f in &r.found {
         let better = match g.get(&f.key) {
@@ -427,8 +472,8 @@ fn handle_found(sh: &Shared, scen: &Scenario, depth: usize, ch: &Chooser, r: &Se
         if better {
             let v = Violation {
                 key: f.key.clone(),
-                what: format!("scenario {}: {} || history: {}", scen.name(), f.what, r.log.join(" ;; ")),
-                replay: json!({"engine": "e_c08", "scenario": scen.name(), "depth": depth, "choices": ch.choices(), "log": r.log}),
+                what: format!("scenario {}: {} || history: {}", scen.name(), f.what, log.join(" ;; ")),
+                replay: json!({"engine": "e_c08", "scenario": scen.name(), "depth": depth, "choices": ch.choices(), "log": log}),
             };
             g.insert(f.key.clone(), Collected { v, hist_len: f.hist_len, count });
         } else {
@@ -460,9 +505,11 @@ fn jobs(tier: Tier) -> Vec<Job> {
                 j.push(Job { scen: Scenario::Open { init, level: Full }, depth: 2 });
                 j.push(Job { scen: Scenario::Open { init, level: Mid }, depth: 3 });
             }
+            j.push(Job { scen: Scenario::FileExtreme, depth: 2 });
             j.push(Job { scen: Scenario::Pipe { level: Full }, depth: 4 });
             j.push(Job { scen: Scenario::PipeZero, depth: 2 });
-            j.push(Job { scen: Scenario::Dir { level: Full }, depth: 3 });
+            j.push(Job { scen: Scenario::Dir { level: Full }, depth: 2 });
+            j.push(Job { scen: Scenario::Dir { level: Mid }, depth: 3 });
         }
         Tier::Thorough => {
             j.push(Job { scen: file(Rw, &abcd, Full), depth: 3 });
@@ -477,10 +524,12 @@ fn jobs(tier: Tier) -> Vec<Job> {
                 j.push(Job { scen: Scenario::Open { init, level: Full }, depth: 3 });
                 j.push(Job { scen: Scenario::Open { init, level: Mid }, depth: 4 });
             }
+            j.push(Job { scen: Scenario::FileExtreme, depth: 3 });
             j.push(Job { scen: Scenario::Pipe { level: Full }, depth: 5 });
             j.push(Job { scen: Scenario::Pipe { level: Mid }, depth: 6 });
             j.push(Job { scen: Scenario::PipeZero, depth: 2 });
-            j.push(Job { scen: Scenario::Dir { level: Full }, depth: 4 });
+            j.push(Job { scen: Scenario::Dir { level: Full }, depth: 3 });
+            j.push(Job { scen: Scenario::Dir { level: Mid }, depth: 4 });
         }
     }
     if let Ok(only) = std::env::var("VERIF_C08_ONLY") {
@@ -514,6 +563,9 @@ fn flush_counters(rep: &Report) {
         for (k, n) in ctx.counters.drain() {
             rep.count(k, n);
         }
+        for s in ctx.new_sigs.drain(..) {
+            rep.outcome(s);
+        }
         let rc = ctx.iour.runtimes_created + ctx.poll.runtimes_created;
         ctx.iour.runtimes_created = 0;
         ctx.poll.runtimes_created = 0;
@@ -537,7 +589,7 @@ fn replay(path: &std::path::Path) -> ! {
     let mut ch = Chooser::replay(choices.clone());
     let res = with_ctx(|ctx| run_sequence(ctx, &job.scen, depth, &mut ch));
     println!("replay of scenario {name} depth {depth} choices {choices:?}");
-    for l in &res.log {
+    for l in &res.log() {
         println!("  {l}");
     }
     for f in &res.found {
@@ -620,6 +672,7 @@ fn main() {
     });
 
     let found = sh.found.into_inner().unwrap();
+    rep.extra("violation_occurrences", json!(found.iter().map(|(k, c)| (k.clone(), c.count)).collect::<BTreeMap<_, _>>()));
     for (_, c) in found {
         let mut v = c.v;
         v.what = format!("{} || sequences hitting this class: {}", v.what, c.count);
